@@ -344,24 +344,40 @@ def register(w):
         "key": f"{U}::lambda_parameter_names",
         "params": {"lam": "py"},
         "requires": ["isinstance(lam, ast.Lambda)", "wf(lam)"],
-        "ensures": [],
+        "raises": {},
+        # one name (a string) per positional-only, plain and keyword-only parameter, in that order
+        "ensures": ["len(result) == len(lam.args.posonlyargs) + len(lam.args.args) + "
+                    "len(lam.args.kwonlyargs)", "all_str(result)"],
         "ret": "list",
-        "abstract": True, "trusted": True,
-        "assumes": ["lambda_parameter_names ([a.arg for a in posonlyargs + args + kwonlyargs]) "
-                    "raises nothing on a well-formed Lambda: the comprehension over a concatenation "
-                    "of three symbolic lists is outside what the engine can discharge"],
-        "properties": ["C18"],
+        "lemma_instances": ["lem_argl(lam.args.posonlyargs)", "lem_argl(lam.args.args)",
+                            "lem_argl(lam.args.kwonlyargs)",
+                            "lem_all_argn_cat(lam.args.posonlyargs, lam.args.args)",
+                            "lem_all_argn_cat(concat(lam.args.posonlyargs, lam.args.args), "
+                            "lam.args.kwonlyargs)"],
+        "comps": {0: {"invariant": ["all_list(is_argn, _rest)", "len(_out) == len(_done)",
+                                    "all_str(_out)"],
+                      "step_hints": ["lem_all_str_snoc(_out0, _elt)"]}},
+        "modifies": [],
+        "properties": ["C18", "C02"],
     })
     C.register(w, {
         "key": f"{U}::lambda_call_follow_renames",
         "params": {"call": "py", "old_names": "list"},
         "requires": ["isinstance(call, ast.Call)", "good(call)"],
-        "ensures": ["good(result)"],
-        "abstract": True, "trusted": True,
-        "assumes": ["lambda_call_follow_renames only replaces the NAMES of keyword arguments "
-                    "(dict(zip(...)) lookup, outside the engine's subset): the call stays a "
-                    "well-formed expression of query shape — assumed, exercised by engine B"],
-        "properties": ["C18"],
+        "raises": {},
+        # the same call: callee and positional arguments untouched, as many keywords as before
+        # (only their names may change), still a well-formed expression of query shape
+        "ensures": ["good(result)", "isinstance(result, ast.Call)",
+                    "same(result.func, call.func)", "same(result.args, call.args)",
+                    "len(result.keywords) == len(call.keywords)"],
+        "lemma_instances": ["lem_kwl_in(call.keywords)"],
+        "comps": {0: {"invariant": ["all_list(is_goodkw, _rest)", "all_list(is_goodkw, _out)",
+                                    "len(_out) == len(_done)"],
+                      "hints": ["lem_kwl_out(_out)"],
+                      "step_hints": ["lem_goodkw_snoc(_out0, _elt)",
+                                     "lem_all_str_in(dict_values_from(renamed), _elt.arg)"]}},
+        "modifies": ["*"],
+        "properties": ["C18", "C02"],
     })
     # ---- term builders used by the fusion rules ---------------------------------------------
     C.register(w, {
@@ -406,25 +422,31 @@ def register(w):
     C.register(w, {
         "key": f"{F}::arg_name",
         "params": {},
-        "ensures": [],
+        # the name built from the counter's value; the counter moves on by exactly one (so two
+        # calls never see the same value; that str.format is injective in the number is CPython's)
+        "ensures": ["result == str_format('arg_{0}', old_glob('argument_var_counter'))",
+                    "glob('argument_var_counter') == old_glob('argument_var_counter') + 1"],
+        "raises": {},
+        "modifies": ["global.argument_var_counter"],
         "ret": "str",
-        "abstract": True, "trusted": True,
-        "assumes": ["arg_name() returns some string (a fresh name from a global counter); "
-                    "freshness matters to C02, not to C18"],
         "properties": ["C18", "C14"],
     })
     C.register(w, {
         "key": f"{F}::_avoid_arg_names_in",
         "params": {"node": "py"},
-        "ensures": [],
+        "requires": ["wf(node)"],
+        "raises": {},
+        # reads the tree, writes nothing but the module's name counter, which never goes back
+        # (so names handed out earlier stay unique).  That the counter ends ABOVE every arg_<n> in
+        # the tree is not stated here (it needs int() / str.format as inverse functions and that
+        # ast.walk meets every node): exercised by engine B, naming scheme 'generated-names' (C02)
+        "ensures": ["glob('argument_var_counter') >= old_glob('argument_var_counter')"],
         "ret": "none",
-        "modifies": [],
-        "abstract": True, "trusted": True,
-        "assumes": ["_avoid_arg_names_in(node) only reads the tree and only assigns the module's "
-                    "name counter (so that arg_name never returns a name the tree uses): NOT "
-                    "verified here (string parsing of the names); its effect - no capture of a "
-                    "user binder called arg_<n> - is exercised by engine B (C02, naming scheme "
-                    "'generated-names')"],
+        "modifies": ["global.argument_var_counter"],
+        "loops": {0: {"invariant": ["glob('argument_var_counter') >= old_glob('argument_var_counter')",
+                                    "is_nodes(_rest)"]}},
+        "assumes": ["ast.walk(n) yields well-formed nodes (library model); int(s) does not raise "
+                    "for a decimal string (library fact)"],
         "properties": ["C18", "C14", "C02"],
     })
     # the entry point: simplify_chained_calls.visit wraps NodeVisitor.visit (the trusted dispatch)
@@ -449,6 +471,7 @@ def register(w):
                     "isinstance(result.args, ast.arguments)",
                     "len(result.args.args) == len(a.args.args)"],
         "fresh": "deep",
+        "modifies": ["global.argument_var_counter"],
         "abstract": True, "trusted": True,
         "assumes": ["make_args_unique (deepcopy + inner renaming visitor) returns a well-formed "
                     "Lambda of query shape with the same number of parameters: NOT verified here; "
@@ -463,7 +486,8 @@ def register(w):
         "raises": {},
         "ensures": ["isinstance(result, ast.Lambda)", "good(result)",
                     "isinstance(result.args, ast.arguments)", "len(result.args.args) == 1"],
-        "modifies": [],
+        # no object that existed before is written; the module's name counter moves on
+        "modifies": ["global.argument_var_counter"],
         "properties": ["C18", "C14"],
     })
 
@@ -477,6 +501,20 @@ def register(w):
     # proj_kha is proved first; the two key_last lemmas use its instance at the tail
     hints = {"klr": ["lem_kha(tail(d), r, s)"], "kld": ["lem_kha(tail(d), r, s)"]}
     PR = ["C18", "C14", "C02"]
+    register_lemma(w, {"name": "argl", "pred": "lem_argl", "induct": "list", "fuel": 4,
+                       "properties": PR})
+    register_lemma(w, {"name": "all_argn_cat", "pred": "lem_all_argn_cat", "induct": "list",
+                       "fuel": 4, "properties": PR})
+    register_lemma(w, {"name": "all_str_snoc", "pred": "lem_all_str_snoc", "induct": "list",
+                       "fuel": 4, "properties": PR})
+    register_lemma(w, {"name": "kwl_in", "pred": "lem_kwl_in", "induct": "list", "fuel": 4,
+                       "properties": PR})
+    register_lemma(w, {"name": "kwl_out", "pred": "lem_kwl_out", "induct": "list", "fuel": 4,
+                       "properties": PR})
+    register_lemma(w, {"name": "goodkw_snoc", "pred": "lem_goodkw_snoc", "induct": "list",
+                       "fuel": 4, "properties": PR})
+    register_lemma(w, {"name": "all_str_in", "pred": "lem_all_str_in", "induct": "list",
+                       "fuel": 4, "properties": PR})
     register_lemma(w, {"name": "fg_take", "pred": "lem_fg_take", "induct": "list",
                        "ih_pred": "lem_fg_take_ih", "fuel": 4, "properties": PR})
     register_lemma(w, {"name": "fg_cat", "pred": "lem_fg_cat", "induct": "list", "fuel": 4,
